@@ -20,9 +20,9 @@ def main(argv):
         ok, log = common.ensure_built()
         print(json.dumps({"what": body["what"], "concrete": body["concrete_failing_input"]}, indent=1))
         if isinstance(body["replay"], dict) and "generated_model" in body["replay"]:
-            import gencheck, gencheck12, gencheck01, gencheck_enc, gencheck_misc, gencheck14
+            import gencheck, gencheck12, gencheck01, gencheck_enc, gencheck_misc, gencheck14, gencheck13
             gm = body["replay"]["generated_model"]
-            r = (gencheck14 if gm in gencheck14.PROOFS else gencheck12 if gm in gencheck12.ORDER else gencheck01 if gm in gencheck01.ORDER else
+            r = (gencheck14 if gm in gencheck14.PROOFS else gencheck13 if gm in gencheck13.PROOFS else gencheck12 if gm in gencheck12.ORDER else gencheck01 if gm in gencheck01.ORDER else
                  gencheck_misc if gm in gencheck_misc.PROOFS else
                  gencheck_enc if gm in gencheck_enc.PROOFS or gm == "transfer" else gencheck).replay(ctx, body["replay"])
             print("REPLAY:", "still failing" if r else "passes now")
@@ -63,12 +63,12 @@ def main(argv):
     except Exception:
         tb = traceback.format_exc()
         ctx.report("the check itself crashed: " + tb.splitlines()[-1], {"traceback": tb}, concrete=False)
-        if "generated_model" not in ctx.engines and pid in ("C01", "C02", "C07", "C08", "C10", "C12", "C14", "C15", "C16", "C17", "C19"):
+        if "generated_model" not in ctx.engines and pid in ("C01", "C02", "C07", "C08", "C10", "C12", "C13", "C14", "C15", "C16", "C17", "C19"):
             # the engine died before its generated-model tie (last call of run()) was reached: run it now, it searches for a concrete input
             try:
                 import gencheck, gencheck12, gencheck01
-                import gencheck_enc, gencheck_misc, gencheck14
-                {"C14": lambda: gencheck14.run_generated_c14(ctx), "C01": lambda: (gencheck01.run_generated_c01(ctx), gencheck_enc.run_generated_kpc(ctx)), "C17": lambda: gencheck01.run_generated_c17(ctx),
+                import gencheck_enc, gencheck_misc, gencheck14, gencheck13
+                {"C14": lambda: gencheck14.run_generated_c14(ctx), "C13": lambda: gencheck13.run_generated_c13(ctx), "C01": lambda: (gencheck01.run_generated_c01(ctx), gencheck_enc.run_generated_kpc(ctx)), "C17": lambda: gencheck01.run_generated_c17(ctx),
                  "C02": lambda: gencheck_enc.run_generated_kfd(ctx), "C07": lambda: gencheck_enc.run_generated_klae(ctx), "C08": lambda: gencheck_enc.run_generated_kmpe(ctx),
                  "C15": lambda: gencheck_misc.run_generated_c15(ctx), "C16": lambda: gencheck_misc.run_generated_c16(ctx),
                  "C10": lambda: gencheck.run_generated(ctx, ["max_occurrence"]),
